@@ -451,7 +451,7 @@ def main(argv=None):
     jobs = []
     for p in parts:
         np_ = min(nproc, p.procs.get(args.tier, nproc))
-        if p.strategy is not None:
+        if p.strategy is not None and p.budget.get(args.tier, 0) > 0:
             n = max(1, int(p.budget[args.tier] * args.scale))
             per = max(1, -(-n // np_))
             for sh in range(np_):
